@@ -22,7 +22,7 @@ RULE = ('cases are sequences of 2-10 foreign (reference-peer) or PGPy-made signa
         'comparison and the verify verdict were evaluated; distinct = distinct sequences of (signature type, sorted '
         'subpacket types) among non-trivial runs')
 TIERS = {'quick': {'runs': 4000, 'budget_s': 60}, 'thorough': {'runs': 250000, 'budget_s': 1500}}
-PROBES = ('attestation_computed_over_received_signature', 'signature_object_reused', 'embedded_back_signature', 'verified_via_copy', 'unknown_subpacket_type', 'critical_bit', 'nonshortest_length', 'five_octet_length', 'two_octet_length',
+PROBES = ('altered_duplicate_judged_with_original', 'attestation_computed_over_received_signature', 'signature_object_reused', 'embedded_back_signature', 'verified_via_copy', 'unknown_subpacket_type', 'critical_bit', 'nonshortest_length', 'five_octet_length', 'two_octet_length',
           'boolean_other', 'boolean_true', 'flag_unknown_bits', 'multi_octet_flags', 'non_ascii_text', 'non_utf8_text',
           'rejected_at_parse', 'flip_rejected_at_parse', 'flip_verified_false', 'pgpy_made_reimported', 'empty_subpacket_body',
           'old_format_header', 'rsa_signer', 'dsa_signer', 'ecdsa_signer', 'eddsa_signer')
@@ -147,7 +147,7 @@ def generate(rng, tier):
                       'issuer_hashed': issuer_hashed, 'issuer_fpr': fpr, 'fmt': rng.choice(['new', 'new', 'old']),
                       'faults': [{'kind': 'F1', 'pos': rng.random()} for _ in range(nflips)],
                       'sweep': tier == 'thorough' and rng.random() < 0.05, 'via_copy': rng.random() < 0.4,
-                      'reuse_object': rng.random() < 0.25, 'attest_then_recheck': rng.random() < 0.4})
+                      'reuse_object': rng.random() < 0.25, 'attest_then_recheck': rng.random() < 0.4, 'dup_in_key': rng.random() < 0.5})
     return {'config': {'keykind': kind, 'created': created, 'uid': rng.choice(['Foreign Signer <f@example.org>', 'Søren <s@example.org>'])},
             'steps': steps}
 
@@ -371,6 +371,7 @@ def _subject(pgpy, pkey, pub, uid_octets, subj):
 
 
 def _ref_sign_step(pgpy, pkey, pub, secret, uid_octets, step, ctx, shapes):
+    tkb_for_dups = bytes(pkey) if step.get('dup_in_key') else b''
     hashed = b''.join(_sp_bytes(sp) for sp in step['hashed'])
     unhashed = b''
     iss = rsigs.sp_issuer(pub.keyid)
@@ -540,6 +541,21 @@ def _ref_sign_step(pgpy, pkey, pub, secret, uid_octets, step, ctx, shapes):
             ctx.probe('flip_rejected_at_parse')
             continue
         ctx.checked()
+        if not ok and step.get('dup_in_key') and step['subject']['kind'] == 'uid' and styp in (0x10, 0x11, 0x12, 0x13):
+            # the genuine certification and the altered copy (same signature integers) arrive together on the user id of one
+            # key and are judged in one call: each by its own octets
+            ctx.probe('altered_duplicate_judged_with_original')
+            try:
+                with watchdog(30):
+                    K2 = pgpy.PGPKey.from_blob(tkb_for_dups + pkt + bytes(mut))[0]
+                    r2 = K2.verify(K2.userids[0])
+                    mine = bytes(mut[hdrlen:])
+                    listed_good = [g for g in r2.good_signatures if bytes(g.signature)[-len(mine):] == mine]
+                if listed_good:
+                    ok = True
+                    field = field + ':next-to-original'
+            except (CallTimeout, Exception):
+                pass
         if ok:
             ctx.viol('C05:flip-accepted:%s' % field.split(':')[0] if field.startswith('sp') else 'C05:flip-accepted:%s' % field,
                      'flipping bit %d of octet %d (%s) of the hashed region of an accepted signature still verifies' % (b, off, field))
